@@ -106,7 +106,79 @@ func (p c13) ownRegistry(c *core.Ctx) {
 	c.Nontrivial(fmt.Sprintf("ownregistry|%d|%d|%v", n, failAt, ords))
 }
 
+// promotedRoles: runners whose ordering role comes from embedded structs - Order() promoted from a shared base
+// struct, the priority mark from the library's PriorityComponent helper: priority-ordered ones first (by Order), then
+// the ordered ones (by Order), then the others; each once.
+func (p c13) promotedRoles(c *core.Ctx) {
+	log := mon.NewLifecycle()
+	var comps []any
+	class := map[string]int{}
+	ord := map[string]int{}
+	n := 2 + c.Rng.Intn(6)
+	ords := c.Rng.Perm(n)
+	for i := 0; i < n; i++ {
+		nm := fmt.Sprintf("promoted-runner-%d", i)
+		base := world.RunnerBase{Nm: nm, Ord: ords[i] - n/2, Log: log}
+		switch k := c.Rng.Intn(3); k {
+		case 0:
+			comps = append(comps, &world.PromotedPriorityRunner{RunnerBase: base})
+			class[nm] = 0
+		case 1:
+			comps = append(comps, &world.PromotedOrderedRunner{RunnerBase: base})
+			class[nm] = 1
+		default:
+			comps = append(comps, &world.PromotedPlainRunner{Nm: nm, Log: log})
+			class[nm] = 2
+		}
+		ord[nm] = base.Ord
+	}
+	c.Rng.Shuffle(len(comps), func(a, b int) { comps[a], comps[b] = comps[b], comps[a] })
+	var err error
+	var pan any
+	func() {
+		defer func() { pan = recover() }()
+		err = app.NewApp().Run(app.SetLogger(world.Logger), app.SetComponents(comps...))
+	}()
+	c.Count("starts", 1)
+	c.Count("starts_with_runners_of_promoted_roles", 1)
+	if pan != nil || err != nil {
+		c.Fail("", fmt.Sprintf("runners with promoted ordering roles: panic %v, error %v", pan, err), nil)
+		return
+	}
+	var seq []string
+	seen := map[string]int{}
+	for _, e := range log.Events() {
+		if e.Kind == "run" {
+			seq = append(seq, fmt.Sprintf("%s(class %d, order %d)", e.Who, class[e.Who], ord[e.Who]))
+			seen[e.Who]++
+		}
+	}
+	detail := map[string]any{"run_sequence": seq, "classes": "0 priority-ordered, 1 ordered, 2 unordered"}
+	for nm := range class {
+		if seen[nm] != 1 {
+			c.Fail("", fmt.Sprintf("runner %s ran %d time(s)", nm, seen[nm]), detail)
+			return
+		}
+	}
+	var prev string
+	for _, e := range log.Events() {
+		if e.Kind != "run" {
+			continue
+		}
+		if prev != "" && (class[prev] > class[e.Who] || (class[prev] == class[e.Who] && class[prev] < 2 && ord[prev] > ord[e.Who])) {
+			c.Fail("", fmt.Sprintf("runner %s (class %d, order %d) ran before %s (class %d, order %d): %v", prev, class[prev], ord[prev], e.Who, class[e.Who], ord[e.Who], seq), detail)
+			return
+		}
+		prev = e.Who
+	}
+	c.Nontrivial(fmt.Sprint("promotedroles|", seq))
+}
+
 func (p c13) Run(c *core.Ctx) {
+	if c.Index%40 == 27 {
+		p.promotedRoles(c)
+		return
+	}
 	if c.Index%40 == 13 {
 		p.ownRegistry(c)
 		return
